@@ -3,6 +3,7 @@
 mod corrupt_eng;
 mod crash_eng;
 mod derive_eng;
+mod fault_eng;
 mod hist_eng;
 mod maint_eng;
 mod search_eng;
@@ -37,6 +38,7 @@ fn run_engine(engine: &str, args: &Args) -> Report {
         "hist_c18" => drive(&hist_eng::Hist { prop: "C18" }, args),
         "c13" => drive(&hist_eng::C13, args),
         "c19" => drive(&term_eng::C19, args),
+        "c32" => drive(&fault_eng::C32, args),
         "c22" => drive(&derive_eng::C22, args),
         "c07" => drive(&corrupt_eng::C07, args),
         "c20" => drive(&ser_eng::C20, args),
